@@ -45,6 +45,46 @@ static char mon_violation[200];
 static int mon_dtls, mon_tls13;
 static int mon_identical_reseals;
 
+/* per key: the first and the last nonce (the strict-increase check does not depend on the bounded seal log) */
+#define MAXKEYS 32
+static struct { uint64_t key; unsigned char first[12], last[12]; long count; } keytab[MAXKEYS];
+static int nkeytab;
+/* record MAC of the CBC suites: per (role of the MAC, key) the last sequence number bound into a MAC */
+static struct { uint64_t key; int verify; unsigned char last[8]; long count; } mactab[MAXKEYS];
+static int nmactab;
+static long mon_macs;
+
+static void note_mac(int verify, const unsigned char *key, int keylen, const unsigned char *seq)
+{
+    uint64_t kh = fnv1a(key, (size_t) keylen, FNV0 ^ 0x4d4143);
+    int i;
+    mon_macs++;
+    for (i = 0; i < nmactab; i++)
+    {
+        if (mactab[i].key == kh && mactab[i].verify == verify)
+        {
+            int c = memcmp(mactab[i].last, seq, 8);
+            if (c == 0 && !mon_dtls && !mon_violation[0])
+            {
+                snprintf(mon_violation, sizeof(mon_violation), verify ? "mac-verify-sequence-number-repeated" : "mac-sequence-number-reused");
+            }
+            else if (c > 0 && !mon_dtls && !mon_violation[0])
+            {
+                snprintf(mon_violation, sizeof(mon_violation), verify ? "mac-verify-sequence-number-not-increasing" : "mac-sequence-number-not-increasing");
+            }
+            memcpy(mactab[i].last, seq, 8);
+            mactab[i].count++;
+            return;
+        }
+    }
+    if (nmactab < MAXKEYS)
+    {
+        mactab[nmactab].key = kh; mactab[nmactab].verify = verify; mactab[nmactab].count = 1;
+        memcpy(mactab[nmactab].last, seq, 8);
+        nmactab++;
+    }
+}
+
 static int ctx_slot(const void *c)
 {
     int i;
@@ -117,14 +157,35 @@ static void note_seal(uint64_t key, const unsigned char *nonce, const unsigned c
     /* strictly increasing sequence number bound into the nonce (per key): with base = first nonce of the key
        (sequence 0 for a fresh TLS 1.3 key; for TLS 1.2 GCM the explicit part IS the sequence number, xor with the
        first value preserves order only from a zero base, so compare raw there) */
-    if (last >= 0 && !mon_violation[0])
+    (void) last; (void) first;
     {
         static const unsigned char zero[12];
         int raw = !mon_tls13; /* TLS 1.2 GCM: explicit nonce is the sequence number itself; TLS 1.3: nonce = iv xor seq, seq 0 at the key's first seal */
-        int c = raw ? nonce_cmp_counter(zero, seals[last].nonce, nonce) : nonce_cmp_counter(seals[first].nonce, seals[last].nonce, nonce);
-        if (c > 0 && !(mon_dtls))
+        int k;
+        for (k = 0; k < nkeytab && keytab[k].key != key; k++)
         {
-            snprintf(mon_violation, sizeof(mon_violation), "sequence-number-not-increasing");
+        }
+        if (k < nkeytab)
+        {
+            int c = raw ? nonce_cmp_counter(zero, keytab[k].last, nonce) : nonce_cmp_counter(keytab[k].first, keytab[k].last, nonce);
+            if (c > 0 && !mon_dtls && !mon_violation[0])
+            {
+                snprintf(mon_violation, sizeof(mon_violation), "sequence-number-not-increasing");
+            }
+            if (c == 0 && nseals >= MAXSEAL && !mon_dtls && !mon_violation[0])
+            {
+                /* beyond the bounded seal log the per-key counter is the only witness: an equal nonce is a reuse */
+                snprintf(mon_violation, sizeof(mon_violation), "nonce-reused-for-different-record");
+            }
+            memcpy(keytab[k].last, nonce, 12);
+            keytab[k].count++;
+        }
+        else if (nkeytab < MAXKEYS)
+        {
+            keytab[nkeytab].key = key; keytab[nkeytab].count = 1;
+            memcpy(keytab[nkeytab].first, nonce, 12);
+            memcpy(keytab[nkeytab].last, nonce, 12);
+            nkeytab++;
         }
     }
     if (nseals < MAXSEAL)
@@ -139,7 +200,7 @@ static void note_seal(uint64_t key, const unsigned char *nonce, const unsigned c
 
 static void hook(int op, const void *ctx, const unsigned char *a, int alen, const unsigned char *b, unsigned blen)
 {
-    int s = ctx_slot(ctx);
+    int s = (op == ENV_OP_MAC_CREATE || op == ENV_OP_MAC_VERIFY) ? 0 : ctx_slot(ctx);
     switch (op)
     {
     case ENV_OP_GCM_INIT:
@@ -171,6 +232,10 @@ static void hook(int op, const void *ctx, const unsigned char *a, int alen, cons
         break;
     case ENV_OP_CHACHA_ENC:
         note_seal(ctxs[s].key, a, b, blen);
+        break;
+    case ENV_OP_MAC_CREATE:
+    case ENV_OP_MAC_VERIFY:
+        note_mac(op == ENV_OP_MAC_VERIFY, a, alen, b);
         break;
     default:
         break;
@@ -276,8 +341,11 @@ static void cbc_scan(world_t *w, int side, int hdr, int cbc, uint64_t entropy_de
 }
 
 /* ------------------------------------------------------------- explorer */
-enum { O_SEND1 = 0, O_SENDBIG, O_SEND0, O_GARBAGE, O_CLOSE, O_USERBUF, O_TIMEOUT, O_NSIDEOPS };
-static const char *oname[] = { "send1", "send16385", "send0", "garbage-in", "closure", "encode-userbuf", "timeout" };
+/* O_SENDMANY (first operation of a path only): the side sends long_run one-byte records, delivered in bursts of 16: the
+ * record sequence number crosses its first carry at 256 (thorough, TLS: also the second at 65536) under one key */
+enum { O_SEND1 = 0, O_SENDBIG, O_SEND0, O_GARBAGE, O_CLOSE, O_USERBUF, O_TIMEOUT, O_SENDMANY, O_NSIDEOPS };
+static const char *oname[] = { "send1", "send16385", "send0", "garbage-in", "closure", "encode-userbuf", "timeout", "send-many" };
+static int long_run = 300;
 
 typedef struct {
     world_t w;
@@ -356,6 +424,32 @@ static int apply_op(gctx_t *g, int side, int op)
     case O_TIMEOUT:
         rc = world_dtls_timeout(&g->w, side);
         break;
+    case O_SENDMANY:
+    {
+        int i, n = ver_is_dtls(pc->ver) && long_run > 300 ? 300 : long_run;
+        size_t before = g->w.s[1 - side].delivered.len;
+        for (i = 0; i < n; i++)
+        {
+            unsigned char b = (unsigned char) i;
+            rc = world_app_send(&g->w, side, &b, 1);
+            if (rc <= 0)
+            {
+                break;
+            }
+            if ((i & 15) == 15 || i + 1 == n)
+            {
+                after_action(g, e0);
+                e0 = env_entropy_bytes;
+                world_pump(&g->w, 40);
+                g->w.trace.len = g->w.trace.len > 4096 ? 4096 : g->w.trace.len;   /* keep the trace of a long run bounded */
+            }
+        }
+        if (i == n && g->w.s[1 - side].delivered.len != before + (size_t) n && !mon_violation[0])
+        {
+            snprintf(mon_violation, sizeof(mon_violation), "long-run-not-delivered");
+        }
+        break;
+    }
     }
     after_action(g, e0);
     return rc;
@@ -407,6 +501,10 @@ static void expand(gctx_t *g)
             int save_depth = g->depth;
             size_t pl = strlen(g->path);
             if (op == O_TIMEOUT && !ver_is_dtls(pc->ver))
+            {
+                continue;
+            }
+            if (op == O_SENDMANY && g->depth != 0)
             {
                 continue;
             }
@@ -646,6 +744,7 @@ int main(int argc, char **argv)
     cfg.assumptions[2] = "CBC: the on-wire IV block of each protected record must differ from every earlier ciphertext block of that direction and >= 16 fresh entropy bytes must be drawn per CBC record (PRNG = psGetEntropy, pinned)";
     replay = mx_parse_args(argc, argv, &cfg);
     thorough = !strcmp(cfg.tier, "thorough");
+    long_run = thorough ? 66000 : 300;
     cfg.bound = thorough ? "operation depth 4 after an undisturbed handshake; depth 2 after each single handshake deviation (DTLS: loss, duplication, timer; every version: an application write or a closure by either side at each handshake step)" : "operation depth 3 after an undisturbed handshake; depth 1 after each single handshake deviation (DTLS: loss, duplication, timer; every version: an application write or a closure by either side at each handshake step)";
 
     if (replay)
